@@ -183,6 +183,16 @@ class LenEv:
         if isinstance(e, (ast.List, ast.Tuple)):
             return Coll(f"[{len(e.elts)} items]") if False else ("seq", len(e.elts))
         if isinstance(e, ast.IfExp):
+            a, b = self.ev(e.body, env), self.ev(e.orelse, env)
+            wrap = None
+            if isinstance(a, Bytes) and isinstance(b, Bytes):
+                a, b, wrap = a.length, b.length, Bytes
+            if isinstance(a, dict) and isinstance(b, dict):
+                if a == b:
+                    return wrap(a) if wrap else a
+                c = self.cond_text(e.test, env)
+                r = l_add(l_mul({("ind", c): 1}, a), l_mul({("ind", "not " + c): 1}, b))
+                return wrap(r) if wrap else r
             return Opaque(norm_text(e))
         if isinstance(e, ast.Subscript):
             base = self.ev(e.value, env)
@@ -260,6 +270,20 @@ class LenEv:
             n = self.ev(e.args[1], env)
             if isinstance(n, dict):
                 return Bytes(n)
+        if d == "sum" and 1 <= len(e.args) <= 2 and isinstance(e.args[0], (ast.GeneratorExp, ast.ListComp)) and len(e.args[0].generators) == 1 and not e.args[0].generators[0].ifs and isinstance(e.args[0].generators[0].target, ast.Name):
+            g = e.args[0].generators[0]
+            coll = self.ev(g.iter, env)
+            init = self.ev(e.args[1], env) if len(e.args) == 2 else {}
+            if isinstance(coll, (Coll, Opaque)) and isinstance(init, dict):
+                env2 = dict(env)
+                env2[g.target.id] = Str("_x")
+                ren = dict(env.get("__rename__", {}))
+                ren[g.target.id] = "_x"
+                env2["__rename__"] = ren
+                inner = self.ev(e.args[0].elt, env2)
+                if isinstance(inner, dict):
+                    return l_add(init, self.sum_over(coll.text, inner))
+            raise LenUnsupported("sum() over something that is not a per-element linear form")
         if d == "reduce" and len(e.args) == 3 and isinstance(e.args[0], ast.Lambda):
             lam = e.args[0]
             acc, item = [a.arg for a in lam.args.args]
